@@ -690,6 +690,9 @@ func TestCheck(t *testing.T) {
 		for i := 0; i < env.N(12, 4); i++ {
 			cases = append(cases, Case{Kind: "deleg", Deleg: genServedThenEdited(r.Fork())})
 		}
+		for i := 0; i < env.N(10, 4); i++ {
+			cases = append(cases, Case{Kind: "deleg", Deleg: genMixedMode(r.Fork())})
+		}
 		for i := 0; i < env.N(200, 8); i++ {
 			cases = append(cases, Case{Kind: "deleg", Deleg: genDeleg(r.Fork(), maxOps)})
 		}
